@@ -20,6 +20,7 @@ import H3.Drv.C11
 import H3.Drv.C10
 import H3.Drv.C20
 import H3.Drv.Fault
+import H3.Drv.Hnd
 open H3.Drv
 
 def dispatch (ws : List String) : String :=
@@ -41,6 +42,7 @@ def dispatch (ws : List String) : String :=
     else if e == "wt" || e == "wtj" then H3.Drv.C19.handle ws
     else if e == "ctl" || e == "ctlrfc" then H3.Drv.C04.handle ws
     else if e == "flt" || e == "fltj" || e == "flt5" || e == "fltj5" then H3.Drv.Fault.handle ws
+    else if e == "hnd5" || e == "hndj" then H3.Drv.Hnd.handle ws
     else if e == "goaway" || e == "goawayj" then H3.Drv.C08.handle ws
     else if e == "drain" then H3.Drv.C09.handle ws
     else if e == "req" then H3.Drv.C03.handle ws
